@@ -26,7 +26,16 @@ THEOREMS = [
     "C18.per_migration_one_mig_per_block",
     "C18.no_markers_without_tddl",
     "C18.framingOk_run",
+    "C18.multidb_framed",
+    "C18.multidb_own_override",
+    "C18.multidb_default",
+    "C18.multidb_own_counterexample",
 ]
+PARTIAL = {
+    "C18.multidb_own_override": "full statement C18.multidb_own_statement (every configure() call of an env.py run is framed by its own override or its "
+                                "dialect's default) is false on the unchanged tree (C18.multidb_own_counterexample, finding C18-F1 = C04-F1); proved for a call "
+                                "that passes the argument (multidb_own_override) and for runs in which no call passes it (multidb_default)",
+}
 TRUSTED = [
     "which dialects have transactional DDL when nothing is overridden (DEFAULT_TDDL: postgresql and mssql yes; sqlite, mysql, oracle no) is specification data of the harness, "
     "not read from the implementation; an explicit transactional_ddl= counts for the configure() call that passes it",
